@@ -8,6 +8,7 @@ import (
 	"path/filepath"
 	"runtime"
 	"sort"
+	"strings"
 	"sync"
 	"sync/atomic"
 	"testing"
@@ -85,6 +86,18 @@ func runWorkload(w workload) (msg string, maxInflight int32, evals int64) {
 		sort.Strings(fs)
 		base.fields = append(base.fields, fmt.Sprintf("%v|%v", fs, err))
 	}
+	salted := make([]bool, len(trees))
+	for i, tx := range texts {
+		salted[i] = strings.Contains(tx, "salt")
+	}
+	type saltedResult struct {
+		ti, j int
+		salt  string
+		saltn int
+		got   string
+	}
+	var saltedMu sync.Mutex
+	var saltedResults []saltedResult
 	inflight := make([]int32, len(trees))
 	var maxSeen int32
 	var total int64
@@ -107,9 +120,15 @@ func runWorkload(w workload) (msg string, maxInflight int32, evals int64) {
 			for it := 0; it < w.Iter; it++ {
 				for k := range trees {
 					ti := (k + g) % len(trees) // goroutines start at different trees but all visit all
+					if it == 0 {
+						ti = k // first pass: everybody hits the same tree first (lazy initialisation races)
+					}
 					j := (it + g) % 3
+					salt, saltn := fmt.Sprintf("g%di%dk%d", g, it, k), g*1000+it
 					r := formula.NewRunner()
-					if d := c08Data(j); d != nil {
+					d := c08Data(j)
+					if d != nil {
+						d["salt"], d["saltn"] = salt, saltn
 						r.SetThis(d)
 					}
 					cur := atomic.AddInt32(&inflight[ti], 1)
@@ -123,7 +142,14 @@ func runWorkload(w workload) (msg string, maxInflight int32, evals int64) {
 					atomic.AddInt32(&inflight[ti], -1)
 					atomic.AddInt64(&total, 1)
 					v, e := outcomeKey(out)
-					if got := v + "|" + e; got != base.eval[ti][j] {
+					if salted[ti] && d != nil {
+						// per-call data: compared with a sequential re-evaluation afterwards
+						saltedMu.Lock()
+						if len(saltedResults) < 20000 {
+							saltedResults = append(saltedResults, saltedResult{ti, j, salt, saltn, v + "|" + e})
+						}
+						saltedMu.Unlock()
+					} else if got := v + "|" + e; got != base.eval[ti][j] {
 						report(fmt.Sprintf("goroutine %d: concurrent evaluation of %q (data variant %d) gave %s, sequentially it gives %s", g, texts[ti], j, got, base.eval[ti][j]))
 						return
 					}
@@ -155,6 +181,19 @@ func runWorkload(w workload) (msg string, maxInflight int32, evals int64) {
 	}
 	close(start)
 	wg.Wait()
+	if firstMsg == "" {
+		for _, sr := range saltedResults {
+			d := c08Data(sr.j)
+			d["salt"], d["saltn"] = sr.salt, sr.saltn
+			r := formula.NewRunner()
+			r.SetThis(d)
+			v, e := outcomeKey(obs.Eval(r, context.Background(), trees[sr.ti].Expression))
+			if want := v + "|" + e; want != sr.got {
+				firstMsg = fmt.Sprintf("concurrent evaluation of %q with salt %q gave %s, sequentially it gives %s", texts[sr.ti], sr.salt, sr.got, want)
+				break
+			}
+		}
+	}
 	return firstMsg, atomic.LoadInt32(&maxSeen), atomic.LoadInt64(&total)
 }
 
@@ -191,6 +230,11 @@ func fixedWorkloadTexts() []string {
 		"fnSV('k', strs...), fnV(1, 2, 3), fnA(m), fnC(1.5), typeof fn0() + typeof st.Name",
 		"st.Inner.Label + st.Name, [st.Age, mi.a, ms.b, np === null, ns.x]",
 		"typeof ctx + typeof this.s, [this.i, !!arr, !n, +dec, -dec, ~i8]",
+		// per-call data (salt differs per goroutine and iteration): exposes caches keyed by input values
+		"regexp(salt, '^' + salt + '$') && regexp(s + salt, salt) && !regexp(s, '^' + salt)",
+		"[upper(salt), lpad(salt, 'x', 14), replace(salt, 'g', 'G'), toFloat(salt), toString(saltn), timeFormat(t, salt), left(salt, 2) + right(salt, 2), find(salt, 'i'), len(salt)]",
+		"[saltn * 1.5, saltn % 7, round(saltn / 3), roundBank(saltn / 2), max(saltn, 10), sqrt(saltn), exp(saltn / 1000), ln(saltn + 1), date(2000 + saltn % 50, saltn % 12 + 1, 1), toInt(saltn / 7)]",
+		"$v = saltn + 1, [$v, salt + $v, typeof salt, fnA(salt), fnSV(salt, saltn, $v), useTimezone(t, saltn % 2 == 0 ? 'UTC' : 'Asia/Kolkata')]",
 	}
 }
 
